@@ -168,6 +168,9 @@ def val_equal(y, gen) -> bool:
         from vlib.store import op_key, snapshot
 
         return isinstance(y, val.Function) and [op_key(d.op) for _, d in y.body.nodes()] == [op_key(d.op) for _, d in gen.body.nodes()] and snapshot(y.body)[1] == snapshot(gen.body)[1]
+    if hasattr(gen, "to_value") and not isinstance(gen, val.Extension):
+        # typed extension constants (IntVal, ArrayVal, ...): equal when their encodings are
+        return type(y) is type(gen) and ref.strip_nested_hugr(dump(y._to_serial_root())) == ref.strip_nested_hugr(dump(gen._to_serial_root()))
     if isinstance(gen, val.Extension):
         return (
             isinstance(y, val.Extension)
